@@ -19,6 +19,9 @@
 #include "util/buffered_stream.hh"
 #include "util/threaded_buffered_stream.hh"
 #include "util/compress.hh"
+#include "util/utf8_icu.cc"
+#include <unicode/unistr.h>
+#include <algorithm>
 
 static void nat(const char *n, unsigned long long v) { printf("nat %s %llu\n", n, v); }
 
@@ -49,5 +52,25 @@ int main() {
   nat("kBlocks", util::BlockQueue::kBlocks);
   nat("kBlockSize", util::BlockQueue::kBlockSize);
   nat("kMagicSize", util::ReadCompressed::kMagicSize);
+  // Flatten rule tables per language (C19): one line per start character
+  //   flat <lang> <startcp> <fallback units csv|-> <nrules> { <rb 0|1> <suffix units csv|-> <to units csv|-> }
+  const char *langs[] = {"en", "fr", "de", "es", "cs"};
+  auto units = [](const U_ICU_NAMESPACE::UnicodeString &u) {
+    std::string o;
+    for (int32_t i = 0; i < u.length(); ++i) { if (i) o += ","; o += std::to_string((unsigned)u.charAt(i)); }
+    return o.empty() ? std::string("-") : o;
+  };
+  for (const char *lang : langs) {
+    const util::FlattenData &d = util::LookupFlatten(lang);
+    std::vector<UChar32> keys;
+    for (auto &kv : d.starts) keys.push_back(kv.first);
+    std::sort(keys.begin(), keys.end());
+    for (UChar32 k : keys) {
+      const util::FlattenData::Start &st = d.starts.find(k)->second;
+      printf("flat %s %d %s %zu", lang, (int)k, units(st.character).c_str(), st.longer.size());
+      for (auto &r : st.longer) printf(" %d %s %s", r.right_boundary ? 1 : 0, units(r.from_suffix).c_str(), units(r.to).c_str());
+      printf("\n");
+    }
+  }
   return 0;
 }
